@@ -370,6 +370,7 @@ var soupFragments = []string{
 	"//", "// c", "//\n", "/", "/*", "*/", "#", "@", "?", "~", "^", "&", "&&", "|", "||", "\x00", "\xff", "\xc3", "\xc3\xa9", "\xe2\x80\xa8", "é",
 	"=", "==", "===", "!", "!=", "<", "<=", ">", ">=", "+", "++", "+=", "-", "--", "-=", "*", "%", ",", ";", ":", ".", "(", ")", "{", "}", "[", "]",
 	"let", "function", "if", "else", "while", "for", "return", "true", "false", "null", "lets", "iff", "a", "b1", "$", "_", "x$y",
+	"pow", "defer", "typeof", "PI", "mod", "unless", "of",
 	" ", "  ", "\t", "\n", "\r", "\r\n", "\n\n",
 	// byte sequences a "helpful" lexer might strip, skip or normalise: BOM, NBSP, other Unicode spaces and line
 	// terminators, zero-width characters, numeric separators, HTML-like and hashbang comments, form feed / vertical tab
@@ -415,6 +416,12 @@ func lexCase(t *fw.T, src string, label string) {
 	var ntok int
 	wit := func() map[string]any {
 		return map[string]any{"input": src, "input_quoted": fmt.Sprintf("%q", clip(src, 400)), "workload": label}
+	}
+	if t.Index%64 == 5 {
+		// other builders with plugins are configured and used in this process (words registered as token types, operators,
+		// interceptors): the plain lexer classifies words as before
+		pluginNoise(t.Index / 64)
+		t.Count("cases_preceded_by_plugin_activity_on_other_builders", 1)
 	}
 	if !t.Guard("lex", wit, func() { fd, ntok, _ = LexCheck(src) }) {
 		return
